@@ -156,7 +156,9 @@ MODEL_OF = {
     "BrandFlow": ["Model/BrandFlow"],
 }
 PROP_TABLE = {"C12": "BrandFlow", "C13": "DerefWriteTable", "C16": "CollectTable", "C19": "SigTable", "C03": "CallGraph", "C20": "CallGraph"}
-PROP_EXTRA = {"C03": ["Proofs/CallGraphDefs"], "C20": ["Proofs/CallGraphDefs"]}
+PROP_EXTRA = {"C03": ["Proofs/CallGraphDefs"], "C20": ["Proofs/CallGraphDefs"],
+              # Props/C12s re-exports the untraced-static rule of the Collect table
+              "C12": ["Model/CollectTy", "Generated/CollectTable", "Proofs/CollectLemmas"]}
 PROP_ELAB = {
     "C12": ["Proofs/BrandFlowLemmas", "Props/C12s"],
     "C13": ["Proofs/WriteCapLemmas", "Props/C13"],
@@ -183,7 +185,7 @@ open GcArena.WriteCap GcArena.Generated
 open GcArena.CollectTy GcArena.Generated
 #eval show IO Unit from do
   for s in collectTable.violations do IO.println ("VIOL " ++ s)
-  IO.println s!"INFO complete={collectTable.complete} entries={collectTable.entries.length}"
+  IO.println s!"INFO complete={collectTable.complete} untracedStatic={collectTable.untracedStatic} entries={collectTable.entries.length}"
 ''',
     "C19": '''import GcArena.Generated.SigTable
 open GcArena.Conjure GcArena.Generated
@@ -252,7 +254,10 @@ def lean_eval(cfg, prop, gen_dir, out_tag="main", elab=False):
     steps = [(os.path.join(cfg["lean"], "GcArena", m + ".lean"), m) for m in MODEL_OF[table]]
     steps.append((os.path.join(gen_dir, table + ".lean"), "Generated/" + table))
     for m in PROP_EXTRA.get(prop, []):
-        steps.append((os.path.join(cfg["lean"], "GcArena", m + ".lean"), m))
+        if m.startswith("Generated/"):
+            steps.append((os.path.join(gen_dir, m.split("/", 1)[1] + ".lean"), m))
+        else:
+            steps.append((os.path.join(cfg["lean"], "GcArena", m + ".lean"), m))
     for src, rel in steps:
         ok, log = _lean_compile(src, out_root, rel, env)
         if not ok:
@@ -442,11 +447,11 @@ THEOREM = {"C12": "GcArena.C12s.table_ok", "C13": "GcArena.C13.table_ok / cells_
 
 def _theorem_for(prop, v):
     if prop == "C12":
-        return "GcArena.C12s.table_ok"
+        return "GcArena.C12s.no_collect_impl_hides_brand" if v.startswith("hidden:") else "GcArena.C12s.table_ok"
     if prop == "C13":
         return "GcArena.C13.cells_static" if v.startswith("cell:") else "GcArena.C13.table_ok"
     if prop == "C16":
-        return "GcArena.C16.table_complete"
+        return "GcArena.C16.untraced_static_ok" if v.startswith("hidden:") else "GcArena.C16.table_complete"
     if prop == "C19":
         return "GcArena.C19s.no_conjure"
     if prop == "C03":
@@ -617,7 +622,7 @@ def run(prop, tier, seed):
     # 3/4. probes ------------------------------------------------------------------------------
     demos = {}
     rows = []
-    if prop in ("C12", "C13", "C19"):
+    if prop in ("C12", "C13", "C16", "C19"):
         t1 = time.time()
         ok, rlib, deps, log = build_rlib(cfg)
         timings["build_rlib"] = round(time.time() - t1, 2)
@@ -629,6 +634,8 @@ def run(prop, tier, seed):
             missing = []
             if prop == "C13":
                 probes = gen.c13_probes(tables["derefwrite"])
+            elif prop == "C16":
+                probes = gen.hidden_brand_probes(tables["collect"])
             elif prop == "C12":
                 probes, missing = _load_gen("gen_brandflow.py").c12_probes(tables["brandflow"])
             else:
@@ -661,8 +668,49 @@ def run(prop, tier, seed):
                 by_role={role: sum(1 for p in probes if p["role"] == role) for role in ("attack", "misuse", "use")})
             res["samples"] = rows[:3] + [r for r in rows if r["rustc"] == "accept" and r["role"] == "attack"][:3]
 
+    # C12 also reports the untraced-static rule of the Collect table (Props/C12s re-exports it): a
+    # branded value hiding in an untraced parameter of a root value outlives its callback
+    if prop == "C12":
+        t1 = time.time()
+        ev16 = lean_eval(cfg, "C16", cfg["gen"], out_tag="c12-collect")
+        timings["lean_eval_collect"] = round(time.time() - t1, 2)
+        if not ev16["ok"]:
+            problem("lean-eval-collect-failed", "the Collect table could not be evaluated for the untraced-static rule (C12s.no_collect_impl_hides_brand)",
+                    False, ["lean (scratch output dir) failed:"], ev16["log"].splitlines()[-40:])
+        else:
+            hidden = [v for v in dict.fromkeys(ev16["violations"]) if v.startswith(("hidden:", "unclassified:"))]
+            res["summary"]["collect_table_info"] = ev16["info"]
+            res["summary"]["hidden_brand_violations"] = hidden
+            res["evaluations"] += len(tables["collect"]["entries"])
+            res["programs"] += len(tables["collect"]["entries"])
+            ok_r, rlib, deps, _log = build_rlib(cfg)
+            if ok_r:
+                hp = _load_gen().hidden_brand_probes(tables["collect"])
+                hres = run_probes(cfg, hp, rlib, deps)
+                hdemos, hcorr, hrows = judge_probes("C16", hp, hres, set(ev16["violations"]))
+                res["evaluations"] += len(hp)
+                res["programs"] += len(hp)
+                res["disagreements_checked"] += len(hp)
+                rows = rows + hrows
+                res["summary"]["hidden_brand_probe_outcomes"] = dict(total=len(hp), accepted=sum(1 for r in hres.values() if r["accepted"]),
+                                                                      rejected=sum(1 for r in hres.values() if not r["accepted"]))
+                for c in hcorr:
+                    p_, r_ = c["probe"], c["result"]
+                    if c["failing"] and p_["entry"] in hdemos and p_["entry"] in hidden:
+                        continue
+                    problem("probe-" + p_["name"], c["text"], c["failing"],
+                            [f"property C12: compile probe `{p_['name']}` generated from Collect table entry `{p_['entry']}` ({p_['role']})",
+                             f"rustc: {'accepted' if r_['accepted'] else 'rejected'}" + (f"; run: {r_['run_out'][:200]}" if r_["ran"] else "")],
+                            p_["src"].splitlines(), key=None)
+                demos.update(hdemos)
+            violating = violating + [v for v in hidden if v not in violating]
+
     # table violations -> problems ----------------------------------------------------------------
     cg = tables.get("callgraph", {})
+    if prop == "C16":
+        # an entry violating the untraced-static rule is incomplete too: report it once, under the rule
+        hid = {v[len("hidden: "):] for v in violating if v.startswith("hidden: ")}
+        violating = [v for v in violating if not (v.startswith("impl: ") and v[len("impl: "):] in hid)]
     for v in violating:
         d = demos.get(v, [])
         key = _key_for(prop, v, d)
@@ -681,9 +729,13 @@ def run(prop, tier, seed):
             text = f"{thm} fails for `{v}`"
             if _is_tie_only(v):
                 text = f"{thm} cannot be established: {v} (the translator fails closed; no failing input is exhibited)"
-            if prop == "C16":
-                ent = next((e for e in tables["collect"]["entries"] if ("impl: " + e["text"]) == v), None)
+            if prop == "C16" or v.startswith("hidden:"):
+                ent = next((e for e in tables["collect"]["entries"] if v in ("impl: " + e["text"], "hidden: " + e["text"])), None)
                 lines = [f"table entry: {json.dumps(ent)}"] + _explain_collect(ent)
+                if ent and v.startswith("hidden:"):
+                    lines += [f"parameter `{p_['name']}` (position {p_['pos']}) is {p_['role']}: neither traced nor bounded by 'static — a `&'gc T` or an untraced `Gc<'gc, T>` may sit there"
+                              for p_ in ent.get("params", []) if p_["role"] in ("unbounded", "collectOnly")]
+                    lines += [f"free lifetime `'{l}` in the self type" for l in ent.get("free_lifetimes", [])]
             elif prop in ("C03", "C20"):
                 m = re.match(r"(reach-destructive|reaches-do-collection|constructs-marked-arena): (\d+) (.*)", v)
                 if m and m.group(1) == "reach-destructive":
@@ -717,7 +769,7 @@ def run(prop, tier, seed):
             if ent and d:
                 header.insert(2, f"offending signature: {ent['decl']}")
                 header.insert(3, f"caller-chosen lifetimes of the result: {ent['free']} (result brands {ent['out_brands']}, input brands {ent['in_brands']})")
-            problem(f"{prop}-{key}", text, bool(d), header, lines, key=key)
+            problem(f"{prop}-{key}", text, bool(d) or v.startswith("hidden:"), header, lines, key=key)
             continue
         problem(f"{prop}-{key}", text, bool(d) or not _is_tie_only(v), header, lines, key=key)
 
